@@ -30,10 +30,10 @@ SCENARIO_TIMEOUT = 300
 
 
 def scenarios(tier, seed):
-    n = 3 if tier == "quick" else 10
+    n = 6 if tier == "quick" else 10
     return [{"kind": "point", "seed": seed * 1000 + 800 + i, "nf": [3, 1, 4][i % 3], "nlevels": 1 + i % 3, "nfiles": 1 + i % 3,
              "layout": "shuffled", "geo_lo": [[1., 2., 3.], [0., 0., 0.], [-4.5, 10.25, 0.125]][i % 3],
-             "dx0": [[0.1, 0.2, 0.4], [1., 1., 1.], [0.5, 0.125, 0.25]][i % 3], "npoints": 10 if tier == "quick" else 40}
+             "dx0": [[0.1, 0.2, 0.4], [1., 1., 1.], [0.5, 0.125, 0.25]][i % 3], "npoints": 30 if tier == "quick" else 60}
             for i in range(n)] + \
         [{"kind": "point", "seed": seed * 1000 + 850, "nf": 2, "nfiles": 2, "layout": "shuffled", "n0": [16, 8, 8], "geo_lo": [-3., 1.5, 10.],
           "dx0": [0.5, 0.25, 0.125], "npoints": 8,      # a fine box lying across the face shared by two coarse boxes
